@@ -383,16 +383,13 @@ def subtrees(t):
 
 
 def node_label(t):
-    """stable short label of the root production (used in signatures)"""
+    """stable, coarse label of the root production (used in signatures): the node kind and, for
+    operators, the operator -- never operand shapes"""
     k = t[0]
     if k in ("un", "bin", "bool"):
         return "%s:%s" % (k, t[1])
     if k == "cmp":
-        return "cmp:%d-op" % len(t[1]) if len(t[1]) > 1 else "cmp:" + t[1][0]
-    if k in ("tuple", "list"):
-        return "%s:%d" % (k, len(t[1]))
-    if k == "slice":
-        return "slice:" + "".join("1" if c is not None else "0" for c in t[2:5])
+        return "cmp_chain" if len(t[1]) > 1 else "cmp"
     return k
 
 
